@@ -411,8 +411,11 @@ int xmp_set_player__(xmp_context opaque, int parm, int val)
 	case XMP_PLAYER_CFLAGS: {
 		int vblank = p->flags & XMP_FLAGS_VBLANK;
 		p->flags = val;
-		if (vblank != (p->flags & XMP_FLAGS_VBLANK))
+		if (vblank != (p->flags & XMP_FLAGS_VBLANK)) {
 			libxmp_scan_sequences(ctx);
+			if (p->sequence >= m->num_sequences)
+				p->sequence = 0;
+		}
 		ret = 0;
 		break; }
 	case XMP_PLAYER_SMPCTL:
@@ -446,6 +449,9 @@ int xmp_set_player__(xmp_context opaque, int parm, int val)
 			p->mode = val;
 			libxmp_set_player_mode(ctx);
 			libxmp_scan_sequences(ctx);
+			/* the rescan may find fewer sequences than before */
+			if (p->sequence >= m->num_sequences)
+				p->sequence = 0;
 			ret = 0;
 		}
 		break;
